@@ -133,7 +133,7 @@ var (
 
 func parseValue(s string) string {
 	s = s[1:]
-	if strings.HasPrefix(s, `"`) && strings.HasSuffix(s, `"`) {
+	if len(s) >= 2 && strings.HasPrefix(s, `"`) && strings.HasSuffix(s, `"`) {
 		s = s[1 : len(s)-1]
 		s = strings.ReplaceAll(s, `""`, `"`)
 	}
